@@ -134,7 +134,7 @@ def run(repo, chk):
                                  GEN, n.value.lineno)
     chk.floor('direct Jump emissions in generator.py', census_j, 12)
     chk.floor('direct halt-class emissions in generator.py', census_h, 8)
-    chk.floor('generator functions analysed', len(gf.gen_methods), 18)
+    chk.floor('generator functions analysed', len(gf.gen_methods), 14)
 
     # skip-guard stubs must be terminal; goto targets of stdlib refs must exist
     for f in all_forms:
